@@ -142,8 +142,14 @@ PROPS["C29"] = dict(
     text="numeric functions on the scalar domain: abs over all i64 (wraps only at MIN, no panic) and all non-NaN f64, mod = truncated remainder (sign/magnitude/zero), to_int/to_float scalar arms over the full i64/f64/bool domain",
     kani=["k_abs_int", "k_abs_float", "c29_mod_int_bounded", "c29_mod_int_class", "k_to_int_scalar", "k_to_float_scalar"],
     scans=["mod_delegates"],
+    bounded_native=[dict(unit="rounding_laws", bound="22 inputs (tiny, ordinary, huge, +-1e300, f64::MAX, ties) x precisions -6..=22 x round/ceil/floor: 1914 calls",
+                         functions=["stdlib round / ceil / floor -> util::round_to_precision"],
+                         text="10f64.powf(p) has no precise model in CBMC and Verus has no floats: on the stated domain the result is a finite float within 10^-precision of the input, ceil never below and floor never above"),
+                    dict(unit="rounding_extreme_precision", bound="the same inputs plus the subnormals +-5e-324 x precisions where 10^precision is not a normal f64 (+-309, +-330, +-400, i64::MIN, i64::MAX) and -1, 0: 720 calls",
+                         functions=["util::round_to_precision where num * 10^precision underflows to zero"],
+                         text="the case class of the recorded finding (direction of ceil/floor when the scaled value underflows), kept apart so that any other failure of rounding_laws is reported")],
     trusted=["Conversion::convert (std string->number parsing) is stubbed out: the Bytes arms of to_int/to_float are not covered"],
-    not_covered=["round/ceil/floor with precision (10f64.powf(p): no precise pow in CBMC, no floats in Verus)", "to_string / parse_int / parse_float (std float formatting and parsing)",
+    not_covered=["round/ceil/floor with precision beyond the bounded stand-in (10f64.powf(p): no precise pow in CBMC, no floats in Verus)", "to_string / parse_int / parse_float (std float formatting and parsing)",
                  "float mod beyond 'never NaN' (C11)", "mod value identity is bounded to |a|,|b| < 2^15 (64-bit divider miter does not finish)"],
 )
 PROPS["C25"] = dict(
@@ -203,10 +209,16 @@ PROPS["C05"] = dict(
 
 PROPS["C03"] = dict(
     level="proof",
-    level_text="PARTIAL (one function of ~200): proof obligations on the extracted real body of SliceFn::type_def that every value the runtime slice() can return (its contract is proved under C28) belongs to the declared type; one obligation FAILS on the tree as given and is recorded as a known finding. No other stdlib function's signature is decided.",
+    level_text="PARTIAL (one function of ~200 under contract, ~70 more under a bounded stand-in): proof obligations on the extracted real body of SliceFn::type_def that every value the runtime slice() can return (its contract is proved under C28) belongs to the declared type; one obligation FAILS on the tree as given and is recorded as a known finding. No other stdlib function's signature is decided.",
     text="declared type vs returned value for stdlib slice: SliceFn::type_def extracted and checked by Verus against an element-level model of array types (known indices + unknown) and the runtime contract of slice (sub-array [s, e))",
     verus=["v_slice_type"],
     kani=[],
+    bounded_native=[dict(unit="stdlib_signatures", bound="73 stdlib calls whose first argument is typed only at runtime x 20 argument values of every kind (numbers, strings, arrays, objects, null, boolean, float, timestamp): 1460 calls",
+                         functions=["Function::compile(..).type_def vs resolve for ~70 stdlib functions (see SIGNATURE_CALLS in /verif/replay/src/main.rs)"],
+                         text="no contract reaches the ~200 type_def implementations: on the stated domain a call with a runtime-typed argument either errors (coalesced by `?? \"fallback\"`) or returns a value of the kind the compiler reports (independent membership predicate), and never panics"),
+                    dict(unit="stdlib_signatures_known", bound="the 6 calls of the recorded finding x the same 20 values (120 calls)",
+                         functions=["flatten, compact, mod, set, remove, parse_regex with a runtime-typed first argument"],
+                         text="the case class of the recorded finding, kept apart so that any other call still alarms")],
     trusted=["verus prelude slicetypes.rs: an array type = top-level members + kind of each known index + kind of the other indices, element kinds compared at their top-level tag; TypeDef::union/or_array/or_bytes/is_array/is_bytes contracts (Kind algebra; its scalar fragment is decided under C19)",
              "the runtime behaviour of slice is the contract proved under C28 (sub-sequence [s, e) of the argument)"],
     not_covered=["every stdlib function other than slice (~200 type_def implementations, parameter kind checks, return_kind bitmasks): NOT decided",
